@@ -625,7 +625,9 @@ func runC03(ctx *Ctx) error {
 						esc = append(esc, url.PathEscape(s))
 					}
 					u := "http://h" + base + "/" + strings.Join(esc, "/")
-					resp, err := p.Call(J{"do": "serve", "req": J{"method": rq.method, "url": u}, "opt": J{"stop": -1, "sstop": -1, "base": base, "entry": (len(rq.segs) + len(rq.method)) % 2, "ctype": rq.kind}})
+					resp, err := p.Call(J{"do": "serve", "req": J{"method": rq.method, "url": u}, "opt": J{"stop": -1, "sstop": -1, "base": base, "entry": (len(rq.segs) + len(rq.method)) % 2, "ctype": rq.kind,
+						// some servers are built with three (pass-through) middlewares: routing is the same with them
+						"mw": map[bool]int{true: 3, false: 0}[(len(rq.segs)+len(rq.method))%2 == 0 && len(rq.segs)%2 == 1]}})
 					if err != nil {
 						return err
 					}
